@@ -100,16 +100,16 @@ type c38 struct {
 	pendSharders map[string]bool
 
 	// per-cycle plan
-	planPhase  minersc.Phase
-	planStart  int64
-	policy     string
-	offsets    map[string]int64 // actor id -> round offset within the phase at which it acts (absent = does not act)
-	dkgs       map[string]*tbls.DKG
-	dkgT       int
-	lastPub    map[string][]byte // last accepted shareSignsOrShares input per sender (for replays by outsiders)
-	cyclePath  []minersc.Phase
-	oplog      []string
-	mbProduced int
+	planPhase   minersc.Phase
+	planStart   int64
+	policy      string
+	offsets     map[string]int64 // actor id -> round offset within the phase at which it acts (absent = does not act)
+	dkgs        map[string]*tbls.DKG
+	dkgT        int
+	lastPub     map[string][]byte // last accepted shareSignsOrShares input per sender (for replays by outsiders)
+	cyclePath   []minersc.Phase
+	oplog       []string
+	mbProduced  int
 	viewChanges int
 }
 
